@@ -447,3 +447,14 @@ Theorem C10_unbroken_accepted : forall c0 argv, plain c0 = true ->
   (forall e, ~ Breaks c0 argv e) -> exists m, parse_top c0 argv = OOk m.
 Proof. exact unbroken_accepted. Qed.
 Print Assumptions C10_unbroken_accepted.
+
+(** finding (model and crate agree): a conditional [requires_if] rule met along a [requires] chain is tested against
+    the value of the ROOT argument -- `--aa v --bb w` with [a.requires(b)], [b.requires_if("v", y)] is rejected with
+    MissingRequiredArgument(y) although [b] = "w"; with `--aa z` the same line is accepted *)
+Theorem C10_requires_if_chain_refuted :
+  plain quirk_cmd = true /\ valid quirk_cmd = true /\
+  (exists e, parse_top quirk_cmd [[112]; ex_dd [97; 97]; [118]; ex_dd [98; 98]; [119]] = OErr e
+             /\ e_kind e = EMissingRequiredArgument /\ e_arg e = [121]) /\
+  (exists m, parse_top quirk_cmd [[112]; ex_dd [97; 97]; [122]; ex_dd [98; 98]; [119]] = OOk m).
+Proof. exact requires_if_chain_witness. Qed.
+Print Assumptions C10_requires_if_chain_refuted.
